@@ -90,7 +90,7 @@ VALUED = [
 ]
 
 
-# serializer half only (the parsers of these kinds use `.map(Constructor)`, which Verus does not support):
+# kinds whose parsers use `.map(Constructor)?` (desugared by the extractor, N8):
 # (file, struct, field spec list, has value)   field spec: u:<f> u32 field, id:<f> uuid newtype field,
 # d:<f> one-byte discriminant enum field, cap:<f> ChannelEndWithCapacity field
 SER_ONLY = [
@@ -254,7 +254,7 @@ def enc_of(spec):
     return (f"match m.{cap} {{\n            ChannelEndWithCapacity::Sender => seq![{h}, Field::Disc(ChannelEnd::Sender.to_u8())],\n"
             f"            ChannelEndWithCapacity::Receiver(c) => seq![{h}, Field::Disc(ChannelEnd::Receiver.to_u8()), Field::U32(c)],\n        }}")
 
-out.append("// ==== serializer half only: kinds whose parser uses `.map(Constructor)` (not supported by Verus) ====\n")
+out.append("// ==== kinds whose parser uses `.map(Constructor)?` (normalisation N8) ====\n")
 out.append("//@item core/src/ids/bus_listener_cookie.rs struct BusListenerCookie\n//@item core/src/ids/channel_cookie.rs struct ChannelCookie\n"
            "//@item core/src/ids/object_cookie.rs struct ObjectCookie\n//@item core/src/ids/object_uuid.rs struct ObjectUuid\n"
            "//@item core/src/ids/service_cookie.rs struct ServiceCookie\n//@item core/src/ids/service_uuid.rs struct ServiceUuid\n"
@@ -277,6 +277,17 @@ for f, st, spec, hasv in SER_ONLY:
                 &&& frame_kind(r->Ok_0) == MessageKind::{st}
                 &&& frame_fields(r->Ok_0) == {st}::enc(self)
 {val}            }},
+    //@end
+
+    // (parser: `.map(Constructor)?` is desugared by the extractor, normalisation N8)
+    //@fn core/src/message/{f}.rs MessageOps@{st}::deserialize_message
+        ensures
+            // round trip{' with identical payload' if hasv else ''}
+            forall|m: {st}| frame_wf(buf) && frame_kind(buf) == MessageKind::{st}{' && frame_has_value(buf)' if hasv else ''}
+                && frame_fields(buf) == #[trigger] {st}::enc(m){' && frame_value(buf) == m.value' if hasv else ''}
+                ==> r == Ok::<{st}, MessageDeserializeError>(m),
+            // strictness
+            r is Ok ==> frame_wf(buf) && frame_kind(buf) == MessageKind::{st} && frame_fields(buf) == {st}::enc(r->Ok_0){' && frame_has_value(buf) && frame_value(buf) == r->Ok_0.value' if hasv else ''},
     //@end
 }}
 
